@@ -279,6 +279,23 @@ def reify_algebra(ctx):
                     return not any(isinstance(c, ast.Attribute) and c.attr.startswith("value_skew") for c in ast.walk(n.left))
             return None
 
+        # the guard that admits only skew-free matrices: it has to look at BOTH off-diagonal entries
+        skew_ifs = [s_ for s_ in fn.body if isinstance(s_, ast.If) and any(isinstance(c, ast.Attribute) and c.attr.startswith("value_skew") for c in ast.walk(s_.test))]
+        names_ = {}
+        for st_ in fn.body:
+            if isinstance(st_, ast.Assign) and len(st_.targets) == 1 and isinstance(st_.targets[0], ast.Name) and isinstance(st_.value, ast.Call):
+                ch_ = attr_chain(st_.value.func)
+                if ch_ and ch_[-1].startswith("value_skew"):
+                    names_[st_.targets[0].id] = ch_[-1]
+        if not skew_ifs:
+            skew_ifs = [s_ for s_ in fn.body if isinstance(s_, ast.If) and any(isinstance(c, ast.Name) and c.id in names_ for c in ast.walk(s_.test))]
+        if skew_ifs:
+            tested = {c.attr for c in ast.walk(skew_ifs[0].test) if isinstance(c, ast.Attribute) and c.attr.startswith("value_skew")} | \
+                {names_[c.id] for c in ast.walk(skew_ifs[0].test) if isinstance(c, ast.Name) and c.id in names_}
+            ctx.ob("R02.4", "%s[guard looks at both skew entries]" % qual, tested >= {"value_skew_x", "value_skew_y"}, "tests %s" % sorted(tested), skew_ifs[0].lineno,
+                   "folding scale and translation into the attributes is only the matrix image when b = c = 0; a guard that tests one of them lets a sheared shape through")
+            if not tested >= {"value_skew_x", "value_skew_y"}:
+                continue
         for i_, s in enumerate(fn.body):
             if isinstance(s, ast.If) and {c.attr for c in ast.walk(s.test) if isinstance(c, ast.Attribute)} >= {"value_skew_x", "value_skew_y"}:
                 from ..segeval import boolean as _boolean
